@@ -64,6 +64,43 @@ def do_import(raw, prop):
         json.dump(meta, open(os.path.join(dst, "meta.json"), "w"), indent=1)
 
 
+def do_run_scratch(names, tier="quick"):
+    """like do_run but on a scratch worktree of /repo HEAD (PRAATIO_REPO points the checks at it), so that
+    /repo itself stays usable meanwhile"""
+    wt = "/tmp/wt/seedrun_%d" % os.getpid()
+    sh("git -C %s worktree remove --force %s" % (REPO, wt))
+    rc, out = sh("git -C %s worktree add --detach %s HEAD -q" % (REPO, wt))
+    assert rc == 0, out
+    results = {}
+    try:
+        for d in sorted(glob.glob(os.path.join(ROOT, "seeded", "*"))):
+            name = os.path.basename(d)
+            if names and name not in names and not any(name.startswith(n) for n in names):
+                continue
+            meta = json.load(open(os.path.join(d, "meta.json")))
+            prop = meta["property"]
+            rc, out = sh("git apply %s" % os.path.join(d, "patch.diff"), cwd=wt)
+            if rc != 0:
+                results[name] = {"applies": False}
+                print(name, "does not apply:", out[-200:])
+                continue
+            try:
+                t0 = time.time()
+                env = dict(os.environ, VERIF_EVIDENCE_DIR=os.path.join(ROOT, "out", "evidence_seeded"), PRAATIO_REPO=wt)
+                rc, out = sh("./check %s --tier %s" % (prop, tier), cwd=ROOT, env=env)
+                lines = [l for l in out.splitlines() if l.startswith(("VIOLATION", "UNDECIDED", "CHECKER"))]
+                results[name] = {"prop": prop, "rc": rc, "s": round(time.time() - t0, 1), "lines": lines[:6]}
+                print(name, prop, "rc=%d" % rc, "%.0fs" % (time.time() - t0), "|", (lines[0][:230] if lines else out.strip().splitlines()[-1][:200]), flush=True)
+            finally:
+                sh("git checkout -- .", cwd=wt)
+    finally:
+        sh("git -C %s worktree remove --force %s" % (REPO, wt))
+    p = os.path.join(ROOT, "out", "seeded_results.json")
+    old = json.load(open(p)) if os.path.exists(p) else {}
+    old.update(results)
+    json.dump(old, open(p, "w"), indent=1)
+
+
 def do_run(names, tier="quick"):
     rc, out = sh("git -C %s status --porcelain" % REPO)
     assert out.strip() == "", "repo not clean: " + out
@@ -104,4 +141,7 @@ if __name__ == "__main__":
         if "--thorough" in args:
             tier = "thorough"
             args.remove("--thorough")
-        do_run(args, tier)
+        if sys.argv[1] == "run-scratch":
+            do_run_scratch(args, tier)
+        else:
+            do_run(args, tier)
